@@ -659,6 +659,19 @@ fn gen_temporal_unit_inner(r: &mut Rng, key: bool, with_seq: bool, payload_len: 
     }
     let mut seq_obu = None;
     let mut hdr = None;
+    // OBUs a decoder skips, in front of the sequence header: metadata, padding, tile list, the
+    // reserved types (AV1 5.3.1: "reserved ... ignored by decoders"), with or without extension
+    if r.chance(1, 8) {
+        for _ in 0..r.range(1, 2) {
+            let t = *r.pick(&[5u8, 15, 8, 9, 10, 11, 12, 13, 14, 15, 5]);
+            let n = r.usize_below(24);
+            let mut md = r.bytes(n);
+            if let Some(b) = md.first_mut() {
+                *b &= 0x7f;
+            }
+            bytes.extend_from_slice(&obu(t, &md, true, if r.chance(1, 4) { Some(r.byte() & 0xf8) } else { None }));
+        }
+    }
     if with_seq {
         let h = gen_seq_hdr(r);
         let p = h.write();
@@ -679,7 +692,20 @@ fn gen_temporal_unit_inner(r: &mut Rng, key: bool, with_seq: bool, payload_len: 
     let ft: u8 = if key { 0 } else { 1 + r.below(3) as u8 };
     fp[0] = (ft << 5) | 0x10 | (fp[0] & 0x0f);
     let last_has_size = r.chance(4, 5);
-    bytes.extend_from_slice(&obu(6, &fp, last_has_size, None));
+    if r.chance(1, 8) {
+        bytes.extend_from_slice(&obu(15, &vec![0u8; r.usize_below(9)], true, None)); // padding
+    }
+    if fp.len() >= 2 && r.chance(1, 6) {
+        // frame header OBU + (redundant frame header) + tile group OBU(s) instead of one frame OBU
+        let cut = 1 + r.usize_below(fp.len() - 1);
+        bytes.extend_from_slice(&obu(3, &fp[..cut], true, None));
+        if r.chance(1, 3) {
+            bytes.extend_from_slice(&obu(7, &fp[..cut], true, None));
+        }
+        bytes.extend_from_slice(&obu(4, &fp[cut..], last_has_size, None));
+    } else {
+        bytes.extend_from_slice(&obu(6, &fp, last_has_size, None));
+    }
     Av1Frame { bytes, seq_obu, hdr }
 }
 
